@@ -232,7 +232,9 @@ def rule_seed(ctx):
             lits = [x for x in walk(arg)] if arg else []
             from_param = any(x.get("k") == "Path" and x.get("local") in param_ids for x in lits)
             self_field = any(x.get("k") == "Path" and x.get("name") == "self" for x in lits)
-            only_lits = arg is not None and all(x.get("k") in ("Lit", "Cast", "Array", "Repeat", "Ref", "Unary", "Binary") for x in lits)
+            # a named constant (`Self::DEFAULT_SEED`, a `const SEED: u64`) is a compile-time value like a literal
+            is_const = lambda x: x.get("k") == "Path" and "def" in x and str((c.dfn(x["def"]) or {}).get("kind", "")).startswith(("Const", "AssocConst", "AssociatedConst", "InlineConst"))
+            only_lits = arg is not None and all(x.get("k") in ("Lit", "Cast", "Array", "Repeat", "Ref", "Unary", "Binary", "Paren", "DropTemps") or is_const(x) for x in lits)
             if only_lits:
                 res.ok()
                 res.sample({"site": inst, "seed": Render(c).e(arg)})
